@@ -17,11 +17,14 @@ mass.py / density.py / util.py, on every run:
 5. the direct oracle (exact `Fraction`s from the translator's reading of the row that belongs to
    the atom, shares no code with model or library) is evaluated on every swept atom;
 6. other routes to the same nuclide (`sweep_routes`, real code + oracle): deuterium / tritium through
-   `table.D`, `table.isotope('D')`, `table.symbol('T')`, `table.name('tritium')`; density, number
+   `table.D`, `table.isotope('D')`, `table.symbol('T')`, `table.name('tritium')`, the by-name exports of
+   `core.define_elements(table, ns)` (`ns['D']`, `ns['tritium']`) and the package attributes
+   `periodictable.D / .deuterium / .T / .tritium`; density, number
    density, interatomic distance and abundance of every element and isotope read through each of
    its ions, and n / d of the element read through its isotopes;
 7. a private table that is read, revised by its owner (seeded: H[1]=1 rescaling of the guide,
-   enriched elements, revised densities / abundances, D and T always) – the relations
+   enriched elements, revised densities / abundances, D and T always, two densities revised to exactly 0:
+   known, so n = 0 rather than "unknown"; generated density tables carry zero entries too) – the relations
    rho_iso = rho*m_iso/m, n = rho*N_A/m, n*d^3 = 1e24 on the values the table returns now – and
    then re-initialised with `mass.init / density.init(table, reload=True)`: the full sweep again.
 """
@@ -348,10 +351,26 @@ ALIASES = (("D", 2, "deuterium"), ("T", 3, "tritium"))
 
 def alias_routes(tbl, name, long_name):
     """the documented ways to reach deuterium / tritium other than H[2] / H[3]"""
-    return [("table.%s" % name, lambda: getattr(tbl, name)),
-            ("table.isotope(%r)" % name, lambda: tbl.isotope(name)),
-            ("table.symbol(%r)" % name, lambda: tbl.symbol(name)),
-            ("table.name(%r)" % long_name, lambda: tbl.name(long_name))]
+    import periodictable
+    from periodictable import core
+
+    def exported(key):
+        ns = {}
+        core.define_elements(tbl, ns)
+        return ns[key]
+
+    routes = [("table.%s" % name, lambda: getattr(tbl, name)),
+              ("table.isotope(%r)" % name, lambda: tbl.isotope(name)),
+              ("table.symbol(%r)" % name, lambda: tbl.symbol(name)),
+              ("table.name(%r)" % long_name, lambda: tbl.name(long_name)),
+              # the by-name exports: `core.define_elements(table, namespace)` (how the package builds
+              # `periodictable.D`, `periodictable.deuterium`, and how a private table is exported)
+              ("table.define_elements[%r]" % name, lambda: exported(name)),
+              ("table.define_elements[%r]" % long_name, lambda: exported(long_name))]
+    if tbl is periodictable.elements:
+        routes += [("table.module.%s" % name, lambda: getattr(periodictable, name)),
+                   ("table.module.%s" % long_name, lambda: getattr(periodictable, long_name))]
+    return routes
 
 
 def oracle_ion(exp: Expect, tbl, z, a, q, na, atom=None):
@@ -511,6 +530,12 @@ def customise(tbl, seed):
             tbl.H[a]._mass = tbl.H[a].mass * rng.uniform(0.9, 1.1)
             tbl.H[a]._abundance = rng.uniform(0.0, 50.0)
             touched.add(1)
+    # a density revised to the boundary value exactly zero (the library anticipates zero densities, see
+    # formulas.mix_by_volume): known, so n = rho*N_A/m = 0 and the isotope densities are 0 - not "unknown"
+    els = [el for el in tbl if el.number and el.isotopes and isinstance(el.mass, float) and el.mass > 0]
+    for el in rng.sample(els, 2):
+        el._density = rng.choice([0, 0.0])
+        touched.add(el.number)
     return touched
 
 
@@ -540,6 +565,14 @@ def oracle_relations(tbl, z, na):
             for name, g in (("density", got_rho), ("number_density", n), ("interatomic_distance", d)):
                 if g is not None:
                     bad.append((a, q, name, "N", P.tok(g)))
+            continue
+        if P.isfinite(rho) and P.isfinite(m) and m > 0 and rho == 0:
+            # a known density of exactly zero: rho_iso = 0*m_iso/m = 0 and n = 0*N_A/m = 0 (d, which
+            # divides by zero, is not judged)
+            if not (P.isfinite(got_rho) and got_rho == 0):
+                bad.append((a, q, "density", "0.0", P.tok(got_rho)))
+            if not (P.isfinite(n) and n == 0):
+                bad.append((a, q, "number_density", "0.0", P.tok(n)))
             continue
         if not (P.isfinite(rho) and P.isfinite(m) and m > 0 and rho > 0):
             continue
@@ -779,7 +812,12 @@ def gen_tables(rng, symbols, real_dens):
         elif q < 0.92:
             dens_rows.append((k, None))
         elif q < 0.97:
-            dens_rows.append((k, R.dec(gen_number(rng, 0.01, 25.0, 4))))
+            if rng.random() < 0.15:
+                # a density that is known and exactly zero: n = rho*N_A/m = 0, not "unknown"
+                dens_rows.append((k, R.dec(rng.choice(["0", "0.0", "0.000"]))))
+                tags.add("zero-density")
+            else:
+                dens_rows.append((k, R.dec(gen_number(rng, 0.01, 25.0, 4))))
     if not tags:
         tags.add("plain")
     return "\n".join(iso_lines), "\n".join(el_lines), "\n".join(ab_lines), dens_rows, tags
